@@ -249,6 +249,7 @@ func (ex *Exec) runPath(harness *ssa.Function, j *job) (res *PathResult) {
 	ex.mutexState = map[*Object]int{}
 	ex.natState = map[string]interface{}{}
 	ex.aliases = nil
+	ex.guards = nil
 	if j.model != nil {
 		ex.models = []map[string]uint64{j.model}
 	}
